@@ -235,6 +235,10 @@ func init() {
 					}
 					runScramSequence(c, mech, seq)
 				}
+				// one smtp.Auth value (WithSMTPAuthCustom) for both connections
+				for _, seq := range scramRedialSeqs {
+					runScramSequenceWith(c, mech, seq, true)
+				}
 			}
 		}})
 
